@@ -486,3 +486,115 @@ def branch_query_scenarios(prog, pm):
         got = sorted({"passes" if t.outcome == "return" else ("stops" if (t.exc_class() or "").endswith("OrphanedChildException") else f"raises {t.exc_class()}") for t in trs})
         out.append((desc + " [" + " -> ".join(f"{n}:{s}" for n, s in chain) + f"; completed={sorted(completed)} marked={sorted(done)}]", "/".join(got), want))
     return out
+
+
+def completion_event_publication(prog: Program):
+    """Publication order inside threading.CompletionEvent, the one-shot mailbox between the consumer thread and a blocked producer.
+
+    Writer (`set`): whatever it stores in the object besides the inner Event is stored BEFORE the inner Event is set - the waiter runs the
+    moment the Event is set and reads the slot once. Reader (`wait`): the slot is read AFTER the inner wait returned.
+    Returns (construct FuncInfo, [(rule-suffix, ok, detail)]), analysed counts."""
+    from .cfg import CFG
+    cls = prog.cls("threading", "CompletionEvent")
+    init, setter, waiter = cls.methods.get("__init__"), cls.methods.get("set"), cls.methods.get("wait")
+    if init is None or setter is None or waiter is None:
+        raise AnalysisError("CompletionEvent.__init__/set/wait not found")
+    inner, payload = None, []
+    for st in ast.walk(init.node):
+        tgt = st.targets[0] if isinstance(st, ast.Assign) and len(st.targets) == 1 else (st.target if isinstance(st, ast.AnnAssign) else None)
+        a = _self_attr(tgt) if tgt is not None else None
+        if a is None or getattr(st, "value", None) is None:
+            continue
+        if isinstance(st.value, ast.Call) and ast.unparse(st.value.func).split(".")[-1] == "Event":
+            inner = a
+        else:
+            payload.append(a)
+    if inner is None or not payload:
+        raise AnalysisError(f"CompletionEvent: inner event {inner!r}, payload slots {payload!r}")
+    out = []
+    g = CFG(setter)
+    sig = g.find_calls(attr="set", recv_text=f"self.{inner}")
+    if not sig:
+        raise AnalysisError("CompletionEvent.set never sets its inner event")
+
+    def stores(gr, attrs):
+        res = []
+        for n in gr.nodes:
+            st = n.stmt
+            if isinstance(st, (ast.Assign, ast.AnnAssign, ast.AugAssign)):
+                tgts = st.targets if isinstance(st, ast.Assign) else [st.target]
+                if any(_self_attr(t) in attrs for t in tgts):
+                    res.append(n)
+        return res
+    st_nodes = stores(g, set(payload))
+    late = [(s, w) for s in sig for w in st_nodes if g.reachable(s.idx, w.idx)]
+    out.append(("payload-stored-before-the-signal", not late and bool(st_nodes),
+                (f"line {late[0][1].lineno}: `{ast.unparse(late[0][1].stmt)}` can run after `self.{inner}.set()` (line {late[0][0].lineno}): the waiter is released first, "
+                 "reads an empty slot and returns as if the checkpoint had been accepted - the error arrives in a slot nobody reads any more") if late
+                else ("the payload slot is never stored" if not st_nodes else f"{len(st_nodes)} store(s), all before the signal")))
+    # the parameter reaches the slot on some path to the signal
+    params = {a.arg for a in setter.node.args.args[1:]}
+    carried = [w for w in st_nodes if isinstance(w.stmt, (ast.Assign, ast.AnnAssign)) and w.stmt.value is not None
+               and any(isinstance(x, ast.Name) and x.id in params for x in ast.walk(w.stmt.value))]
+    out.append(("signal-carries-the-error", any(g.reachable(w.idx, s.idx) for w in carried for s in sig),
+                f"{len(carried)} store(s) of the argument reach the signal"))
+    gw = CFG(waiter)
+    waits = gw.find_calls(attr="wait", recv_text=f"self.{inner}")
+    if not waits:
+        raise AnalysisError("CompletionEvent.wait never waits on its inner event")
+
+    def loads(n):
+        return any(isinstance(x, ast.Attribute) and isinstance(x.ctx, ast.Load) and _self_attr(x) in payload
+                   for e in gw.header_exprs(n) for x in ast.walk(e))
+    early = [n for n in gw.nodes if loads(n) and n.idx not in {w.idx for w in waits} and not all(gw.dominates(w.idx, n.idx) for w in waits)]
+    raises = [n for n in gw.nodes if isinstance(n.stmt, ast.Raise) and loads(n)]
+    out.append(("slot-read-after-the-wait", not early and bool(raises),
+                f"line {early[0].lineno}: the slot is read on a path that has not waited" if early else
+                ("wait() never raises what was stored" if not raises else f"{len(raises)} raise(s) of the stored error, all after the wait")))
+    return (setter, waiter), out, {"inner": inner, "payload": payload, "signal_sites": len(sig), "stores": len(st_nodes)}
+
+
+def unguarded_text_conversions(fn_node, pnames: set[str], truthiness: bool = False):
+    """(n_sites, [(lineno, what)]): places where the text of an object named in `pnames` is asked for - str()/repr()/format() calls and f-string
+    interpolations, which run the object's own __str__/__repr__/__format__ - outside the body of a try that has handlers. With `truthiness`, a bare
+    truth test of the name (`if x`, `x and ..`, `.. if x else ..`: __bool__/__len__) counts as well."""
+    par = {}
+    for n in ast.walk(fn_node):
+        for c in ast.iter_child_nodes(n):
+            par[id(c)] = n
+
+    def guarded(n):
+        cur = par.get(id(n))
+        while cur is not None:
+            if isinstance(cur, ast.Try) and cur.handlers and any(n is x for b in cur.body for x in ast.walk(b)):
+                return True
+            cur = par.get(id(cur))
+        return False
+    n_sites, bad = 0, []
+    for n in ast.walk(fn_node):
+        what = None
+        if isinstance(n, ast.Call) and isinstance(n.func, ast.Name) and n.func.id in ("str", "repr", "format") and n.args \
+                and isinstance(n.args[0], ast.Name) and n.args[0].id in pnames:
+            what = f"{n.func.id}({n.args[0].id})"
+        elif isinstance(n, ast.FormattedValue) and isinstance(n.value, ast.Name) and n.value.id in pnames:
+            what = "f'{" + n.value.id + "}'"
+        elif isinstance(n, ast.BinOp) and isinstance(n.op, ast.Mod) and isinstance(n.left, ast.Constant) and isinstance(n.left.value, str) \
+                and any(isinstance(x, ast.Name) and x.id in pnames for x in ast.walk(n.right)):
+            what = "'%s' % <it>"
+        elif truthiness:
+            tests = []
+            if isinstance(n, (ast.If, ast.IfExp, ast.While)):
+                tests = [n.test]
+            elif isinstance(n, ast.BoolOp):
+                tests = n.values
+            elif isinstance(n, ast.UnaryOp) and isinstance(n.op, ast.Not):
+                tests = [n.operand]
+            for t_ in tests:
+                if isinstance(t_, ast.Name) and t_.id in pnames:
+                    what = f"truth test of `{t_.id}`"
+        if what is None:
+            continue
+        n_sites += 1
+        if not guarded(n):
+            bad.append((n.lineno, what))
+    return n_sites, bad
